@@ -242,6 +242,15 @@ def split_pairs(s):
     return [] if s == "-" else [tuple(x.split("=")) for x in s.split(",")]
 
 
+def ckey(k):
+    """closures that are Equals-equal are the same key for the spec: compare them by class"""
+    return "c*." + k.split(".")[1] if k[0] == "c" else k
+
+
+def cpairs(l):
+    return [(ckey(k), v) for k, v in l]
+
+
 def to_sops(ops, gout):
     """rewrite the history for the spec oracle using what Go returned; returns (sop strings, plan)
     plan[i] = (index of first sop of op i, number of sops)"""
@@ -309,11 +318,12 @@ def check_s(ops, gout, sres, plan):
                     fails.append((i, "Next(%s) returned the same key" % f[1]))
         elif f[0] == "W":
             status, body = res.split(":", 1)
-            vis = split_pairs(body)
-            want = sorted(split_pairs(s[0]))
+            vis = cpairs(split_pairs(body))
+            want = sorted(cpairs(split_pairs(s[0])))
             if status != "end":
                 fails.append((i, "traversal ended with status %s after %d keys (map has %d)" % (status, len(vis), len(want))))
             elif sorted(vis) != want:
+                desc_pairs[i] = want
                 missing = [k for k, _ in want if k not in [x for x, _ in vis]]
                 fails.append((i, "traversal visited %d pairs, map has %d (missing %s; duplicates %d)" %
                               (len(vis), len(want), ",".join(missing[:4]), len(vis) - len(set(k for k, _ in vis)))))
@@ -352,15 +362,27 @@ class Engine:
             res.append(f[1].split("|") if len(f) > 1 and f[1] else [])
         return rc, res, plans, err
 
-    def s_fails(self, ops):
-        """property-level verdict for one history (used by the shrinker)"""
+    def s_fails(self, ops, ck=None):
+        """property-level verdict for one history (used by the shrinker): failures against the abstract map;
+        with ck given, a history whose first failure matches an open known finding counts as not failing"""
         rc, gos, _ = self.go([ops])
         if rc != 0 or not gos:
             return [(0, "harness crashed")]
         rc2, sres, plans, _ = self.spec([ops], gos)
         if rc2 != 0 or not sres:
             return []
-        return check_s(ops, gos[0][1], sres[0], plans[0])
+        fails = check_s(ops, gos[0][1], sres[0], plans[0])
+        if fails and ck is not None:
+            rc3, ims, _ = self.im([ops], gos)
+            im_equal = rc3 == 0 and ims and ims[0][0] == gos[0][1]
+            for (j, desc) in fails:
+                k = classify_known(ck, ops, j, desc, gos[0][1], im_equal)
+                if k is None:
+                    return [(j, desc)]
+                if k["match"]["class"] in ("reset-float-key-not-normalised", "closure-equal-not-same-hash"):
+                    break
+            return []
+        return fails
 
 
 def shrink(ops, still_fails, budget=250):
@@ -385,6 +407,9 @@ def shrink(ops, still_fails, budget=250):
 
 
 # ----------------------------------------------------------------------------- known findings
+desc_pairs = {}
+
+
 def classify_known(ck, ops, i, desc, gout, im_equal):
     """Does the S-failure at op i match an open known finding narrowly?  Returns the entry or None."""
     op = ops[i]
@@ -406,11 +431,16 @@ def classify_known(ck, ops, i, desc, gout, im_equal):
                 alen, asz = int(a[0], 16), int(a[1], 16)
             if (j * p + q) % m == 0 and k is not None and asz is not None and 1 <= k <= asz and alen < k:
                 return ck.known_match(lambda e: e["match"].get("class") == "walk-clear-array-last")
-        # (4) next(t, 0) restarts the array part: key 0 in the hash part + a non-empty array part
-        if status == "cap" and any(tok_to_int(k) == 0 for k, _ in vis) and "/A" in state and not state.split("/A")[1].startswith("-"):
+        # (4) next(t, 0) restarts the array part: key 0 in the hash part + a non-nil array part
+        if any(tok_to_int(k) == 0 for k, _ in vis) and "/A" in state and not state.split("/A")[1].startswith("-"):
             zi = next(j for j, (k, _) in enumerate(vis) if tok_to_int(k) == 0)
-            if zi + 1 < len(vis) and tok_to_int(vis[zi + 1][0]) is not None and tok_to_int(vis[zi + 1][0]) >= 1:
+            if zi + 1 < len(vis) and vis[zi + 1][0] in [k for k, _ in vis[:zi + 1]]:
                 return ck.known_match(lambda e: e["match"].get("class") == "next-zero-key-restarts-array")
+        # (3') aliasing closures: the traversal differs from the map only on closure keys
+        if status == "end" and has_alias(ops[:i]) and desc.startswith("traversal visited"):
+            want = desc_pairs.get(i, [])
+            if sorted(p for p in cpairs(vis) if p[0][0] != "c") == sorted(p for p in want if p[0][0] != "c"):
+                return ck.known_match(lambda e: e["match"].get("class") == "closure-equal-not-same-hash")
         # (2) Set of an existing key while the hash part is full re-hashes the table
         if i > 0 and status in ("end", "cap", "invalid"):
             prev = gout[i - 1][1]
@@ -515,23 +545,26 @@ def evaluate(ck, eng, hists, label, first_violation_only=True, max_report=3):
                           "theorems": ["C03_inv_preserved"]}, no_input=False)
         # ---- Go ≈ S
         fails = check_s(ops, gout, sres[i], plans[i])
-        if fails:
-            j, desc = fails[0]
+        for (j, desc) in fails:
             k = classify_known(ck, ops, j, desc, gout, im_equal)
             if k is not None:
                 ck.known_finding(k)
                 ck.count("known:" + k["id"])
+                if k["match"]["class"] in ("reset-float-key-not-normalised", "closure-equal-not-same-hash"):
+                    break        # Go and the abstract map legitimately diverge after these two
                 continue
             n_s += 1
             if reported < max_report:
                 reported += 1
-                small = shrink(ops, lambda cand: bool(eng.s_fails(cand)))
-                sf = eng.s_fails(small)
+                small = shrink(ops, lambda cand: bool(eng.s_fails(cand, ck)))
+                sf = eng.s_fails(small, ck)
                 _, g1, _ = eng.go([small], verbose=True)
                 ck.violation("table property fails on the implementation (%s): %s" % (label, (sf or fails)[0][1]),
-                             {"kind": "Go!=S", "engine": "table", "history": " ; ".join(small), "failures": [d for _, d in (sf or fails)][:5],
+                             {"kind": "Go!=S", "engine": "table", "history": " ; ".join(small), "original_history": " ; ".join(ops)[:6000],
+                              "original_failure": "op %d: %s" % (j, desc), "failures": [d for _, d in (sf or fails)][:5],
                               "impl": ("|".join("%s %s" % x for x in g1[0][1]) if g1 else None)[:4000],
                               "theorems": ["C03_table_is_map", "C03_len_is_border", "C03_traversal"]})
+            break
     return n_im, n_s, im_diffs
 
 
@@ -562,7 +595,7 @@ def run(tier, seed):
     eng = Engine(gvh, oracle)
 
     corpus = load_corpus()
-    nrand = 700 if tier == "quick" else 40000
+    nrand = int(os.environ.get("VERIF_C03_N", 700 if tier == "quick" else 40000))
     hists = list(corpus)
     for i in range(nrand):
         hists.append(gen_history(ck.rng, alias=(i % 25 == 7)))
